@@ -10,7 +10,7 @@ says so.  Secure floats: see `check_floats` for what is (modestly) covered.
 """
 import itertools
 from props.c07 import (run_ops, subsets, arglist, is_risky, first_stuck, sends_of, recvs_of, transfer_oracle,
-                       coq_natlist, NUMERIC, gen_transfer_ops, gen_graph_ops, gen_output_ops, describe)
+                       coq_natlist, NUMERIC, gen_transfer_ops, gen_graph_ops, gen_output_ops, describe, alias_sig, MUTATIONS)
 
 MANIFEST = {
     'text': 'Coq theorems (Routing.v), all m / thresholds / receiver lists / graphs: output sends a share only to members '
@@ -26,7 +26,10 @@ MANIFEST = {
             'subset: NOT proved here (needs C13/C14 uniformity of dealings); checked on the implementation only: every frame '
             'reaching a non-receiver is one dealing of input()/_reshare() by its sender backed by t fresh random field '
             'elements per value, its payload changes with the random tape for a fixed float, and the link/size pattern does '
-            'not depend on the float value; t=0 configurations have no privacy and are skipped for floats.',
+            'not depend on the float value; t=0 configurations have no privacy and are skipped for floats. '
+            'Aliasing stream (m=1 -M1, m=3): the caller changes its receivers list (reverse/overwrite/del/append/clear) '
+            'or x between the call of output and the await; parties outside the CALL-TIME receivers must get no byte '
+            '(late read of receivers: F-C19-1 = F-C07-5, fixed in 8b4dfdd).',
     'technique': 'Coq proof (membership in filter) + multi-party simulator wire measurement compared with vm_compute model',
 }
 
@@ -88,7 +91,7 @@ def check_ops(ctx, m, t, no_prss, ops, run, exprs, meta):
             if not (res is None or res == [] or (isinstance(res, list) and all(a is None for a in res))):
                 bad.append({'party': q, 'obtained': repr(res)[:100]})
         if bad:
-            ctx.violation('%s non-receiver gets message m=%d' % (kind, m),
+            ctx.violation(alias_sig(op, m, '%s non-receiver gets message m=%d' % (kind, m)),
                           {'config': cfg, 'op': describe(op), 'k': k, 'bad': bad[:8]})
         links = sorted((p, q) for p in range(m) for q in range(m) if p != q and recs[p]['bytes'][q])
         if op['op'] == 'output':
@@ -98,12 +101,28 @@ def check_ops(ctx, m, t, no_prss, ops, run, exprs, meta):
             from props.c07 import transfer_coq
             exprs.append(transfer_coq(op, m))
         meta.append((op['op'], cfg, op, k, links))
+        if 'alias' in op:
+            kind = 'aliasing/' + kind
         ctx.case({'cfg': cfg, 'op': op}, nontrivial=m >= 2 and bool(outsiders) and bool(links), kind=kind)
     if stuck is not None:
         k, who = stuck
-        ctx.violation('%s incomplete m=%d' % (ops[k]['op'], m),
+        ctx.violation(alias_sig(ops[k], m, '%s incomplete m=%d' % (ops[k]['op'], m)),
                       {'config': cfg, 'op': describe(ops[k]), 'stuck_parties': who, 'exceptions': run['excs'][:6]})
     return upto
+
+
+def gen_alias_output_ops(m):
+    """f = mpc.output(x, receivers=rcv); <caller changes rcv / x in place>; await f.  The receivers are those
+    given at call time: a party outside them must get no byte, whatever the caller does with its list later."""
+    ops = []
+    a, b = 0, 1 % m
+    for mut in MUTATIONS:
+        for st in ('secint', 'secfld', 'symgrp'):
+            base = {'op': 'output', 'stype': st, 'threshold': None, 'n': 2, 'src': 'input', 'dealer': m - 1}
+            for R in ([a], [b, a] if m > 2 else [b], []):
+                ops.append(dict(base, receivers=['list', list(R)], alias={'arg': 'receivers', 'mutation': mut}))
+            ops.append(dict(base, receivers=['list', [b]], alias={'arg': 'x', 'mutation': mut}))
+    return ops
 
 
 def check_floats(ctx, m, t, ops, runA, runB):
@@ -196,6 +215,15 @@ def run(ctx):
             runA2 = run_ops(m, t, fops, ctx.seed * 131 + m * 7 + t + 1000, no_prss=no_prss)
             runB = run_ops(m, t, fops, ctx.seed * 977 + m * 13 + t + 5000, no_prss=no_prss)
             nfloat += check_floats(ctx, m, t, fops, runA2, runB)
+    # aliasing stream: the caller mutates its receivers list (or x) between the call and the await (-M1 and m=3)
+    nalias = 0
+    for (m, t) in ((1, 0), (3, 1)):
+        aops = gen_alias_output_ops(m)
+        ctx.log('aliasing stream m=%d: %d call/mutate/await outputs' % (m, len(aops)))
+        runA = run_ops(m, t, aops, ctx.seed * 257 + m, idle_limit=200)
+        check_ops(ctx, m, t, False, aops, runA, exprs, meta)
+        nalias += len(aops)
+    ctx.extra['aliasing_ops'] = nalias
     ctx.extra['float_outputs_checked'] = nfloat
     ctx.log('%d simulator cases (%d float outputs with non-receivers); evaluating %d model expressions' % (
         ctx.evaluations, nfloat, len(exprs)))
@@ -211,7 +239,11 @@ def run(ctx):
                 model = sorted((p, q) for p, row in enumerate(r) for q in row)
             else:
                 model = sorted((p, q) for p, row in enumerate(r) for q in row[0])
-            if sorted(set(model)) != links:
+            if sorted(set(model)) != links and 'alias' in op:
+                mism += 1
+                ctx.violation(alias_sig(op, cfg['m'], 'links carrying bytes differ from the call-time receivers'),
+                              {'config': cfg, 'op': describe(op), 'model_links': model, 'impl_links': links})
+            elif sorted(set(model)) != links:
                 mism += 1
                 ctx.broken.append({'kind': 'correspondence', 'what': kind + ' links', 'config': cfg, 'op': op,
                                    'model': model, 'impl': links})
